@@ -4,7 +4,7 @@ Proof: Props/C09.v over Model/Dag.v + Model/Invalidate.v (every well-formed task
 matcher, every store state).
 Tie: generated jugfiles (edges arising through plain arguments, keyword arguments, nested
 containers, tasklets, task- and tasklet-valued indices, iteratetask, mapped sequences, their
-slices and elements, CustomHash, identity; duplicate calls) x every function name / dotted name /
+slices and elements, CustomHash, identity, containers handed to a task and filled by LATER statements; duplicate calls) x every function name / dotted name /
 regex as target x store states (full, partial and dependency-closed, partial and not closed,
 packed, packed by a `jug pack` that was killed after the new pack file was in place but before /
 while the result files it replaces were unlinked, re-dumped next to the pack by a worker whose
@@ -1329,7 +1329,7 @@ def run(ck):
         'syntactic references is checked by the oracle here and proved in C03/C16); redis is the in-process fake; the '
         'target matcher is an oracle (re-stated in the harness, compared through the removed sets)',
     ]
-    ck.assumptions = ['wf_dag (dependencies are created before their consumers; equal hash => equal name and dependency set): '
+    ck.assumptions = ['wf_dag (every dependency is a task of the jugfile, equal hash => equal name and dependency set, acyclic - in ANY creation order): '
                       'checked on every observed graph by wf_dagb inside coqc',
                       'the store is not modified concurrently with the command']
     rng = ck.rng
